@@ -44,6 +44,10 @@ pub struct ScenarioDef {
     pub plan: fn(seed: u64, tier: &str) -> Plan,
     pub check: fn(plan: &Plan, out: &Outcome) -> Verdict,
     pub nontrivial_rule: &'static str,
+    pub quick_runs: u64,
+    pub thorough_runs: u64,
+    /// a simulated process that is killed (watchdog, abort, stack overflow) counts as a violation
+    pub died_is_violation: bool,
 }
 
 pub fn all() -> Vec<ScenarioDef> {
